@@ -404,8 +404,10 @@ func (s *Module) defineSyncStage() error {
 	}
 
 	if s.syncStage == headersSynced|blocksSynced|mptSynced {
-		s.log.Info("state is in sync, starting regular blocks processing")
-		s.syncStage = inactive
+		// Everything is collected, but the jump to the synchronized state wasn't
+		// started (a started one is finished by Blockchain itself): the node was
+		// stopped right after the last block had been stored.
+		s.checkSyncIsCompleted()
 	}
 	return nil
 }
